@@ -15,6 +15,7 @@ use crate::{Agg, Args, HistResult, cfg_from, hseed, nontrivial_for, own_props, r
 pub fn has_faults(ops: &[Op]) -> bool {
     ops.iter().any(|o| match o {
         Op::Collect { fault, .. } | Op::Finalize { fault, .. } => *fault > 0,
+        Op::DropArenaFault { .. } => true,
         Op::Cb { kind, body, .. } => *kind == CbKind::TryMapRootErr || body.iter().any(|m| matches!(m, MOp::Panic)),
         Op::New { via, body, .. } => *via == NewKind::TryNewErr || body.iter().any(|m| matches!(m, MOp::Panic)),
         _ => false,
@@ -38,6 +39,7 @@ pub fn strip_faults(ops: &[Op]) -> Vec<Op> {
     ops.iter()
         .map(|o| match o {
             Op::Collect { a, op, .. } => Op::Collect { a: *a, op: *op, fault: 0 },
+            Op::DropArenaFault { a, .. } => Op::DropArena { a: *a },
             Op::Finalize { a, via_mark_debt, body, .. } => Op::Finalize { a: *a, via_mark_debt: *via_mark_debt, body: strip_body(body), fault: 0 },
             Op::Cb { a, kind, body } => Op::Cb { a: *a, kind: if *kind == CbKind::TryMapRootErr { CbKind::TryMapRootOk } else { *kind }, body: strip_body(body) },
             Op::New { a, via, body } => Op::New { a: *a, via: if *via == NewKind::TryNewErr { NewKind::TryNewOk } else { *via }, body: strip_body(body) },
@@ -115,7 +117,7 @@ pub fn project(ops: &[Op], a: u8, handle_log: &[(usize, u32, Option<u32>, u8)]) 
     let mut out = Vec::new();
     for (i, o) in ops.iter().enumerate() {
         let own = match o {
-            Op::New { a: x, .. } | Op::Cb { a: x, .. } | Op::Finalize { a: x, .. } | Op::Collect { a: x, .. } | Op::SetPacing { a: x, .. } | Op::AdjustDebt { a: x, .. } | Op::Audit { a: x } | Op::DropArena { a: x } => *x == a,
+            Op::New { a: x, .. } | Op::Cb { a: x, .. } | Op::Finalize { a: x, .. } | Op::Collect { a: x, .. } | Op::SetPacing { a: x, .. } | Op::AdjustDebt { a: x, .. } | Op::Audit { a: x } | Op::DropArena { a: x } | Op::DropArenaFault { a: x, .. } => *x == a,
             _ => false,
         };
         if own {
@@ -206,6 +208,7 @@ pub fn mode_faultenum(args: &Args) {
     let max_pos = args.num("maxpos", 12) as usize;
     let mut cfg = cfg_from(args);
     cfg.faults = false;
+    cfg.dfaults = false;
     cfg.len = args.num("len", 40) as usize;
     let mut agg = Agg::new();
     agg.own = own_props(&prop);
@@ -230,7 +233,47 @@ pub fn mode_faultenum(args: &Args) {
         bases += 1;
         let h = &base.history;
         let mut variants: Vec<(String, Vec<Op>)> = Vec::new();
+        let dmode = args.flag("dfaults");
+        if dmode {
+            // destructor faults: every collection call / audit / arena drop that ran destructors is
+            // re-run with its k-th destructor panicking, for every k (sampled above max_pos)
+            for (c, op) in h.iter().enumerate() {
+                let n = base.op_drops.get(&c).copied().unwrap_or(0) as usize;
+                if n == 0 {
+                    continue;
+                }
+                let ks: Vec<usize> = if n <= max_pos { (1..=n).collect() } else { (0..max_pos).map(|i| 1 + i * (n - 1) / (max_pos - 1)).collect() };
+                match op {
+                    Op::Collect { a, op: cop, .. } => {
+                        for k in ks {
+                            let mut v = h.clone();
+                            v[c] = Op::Collect { a: *a, op: *cop, fault: DFAULT_BASE + k as u32 - 1 };
+                            variants.push((format!("dcollect@{}#{}", c, k), v));
+                        }
+                    }
+                    Op::Audit { a } => {
+                        // (an audit is two finish_cycle calls: fault the first, then audit)
+                        for k in ks {
+                            let mut v = h.clone();
+                            v.insert(c, Op::Collect { a: *a, op: COp::FinishCycle, fault: DFAULT_BASE + k as u32 - 1 });
+                            variants.push((format!("daudit@{}#{}", c, k), v));
+                        }
+                    }
+                    Op::DropArena { a } => {
+                        for k in ks {
+                            let mut v = h.clone();
+                            v[c] = Op::DropArenaFault { a: *a, k: k as u32 };
+                            variants.push((format!("ddrop@{}#{}", c, k), v));
+                        }
+                    }
+                    _ => {}
+                }
+            }
+        }
         for (c, op) in h.iter().enumerate() {
+            if dmode {
+                break;
+            }
             match op {
                 Op::Collect { a, op: cop, .. } => {
                     let n = base.op_events.get(&c).copied().unwrap_or(0) as usize;
